@@ -70,7 +70,10 @@ OneBad == [a \in Addrs |-> IF a = 1 THEN "ok" ELSE "bad"]
 MCConf == [gen |-> Gen, slotms |-> 4, spe |-> Spe, akind |-> AKinds, hdrok |-> TRUE, rfp |-> 500]
 MCInit == InitWith(MCConf) /\ fed = 0
 WSet == {now + d : d \in {0, 2, 3, 4, 5, 8, 10}}
-Opts == [bad : BadModes, trimNM : TrimModes, w : IF "badevent" \in Dev THEN {now} ELSE WSet]
+\* the wake-up time only matters when a bad event makes the client reconnect (contract)
+Opts == IF "badevent" \in Dev THEN {[bad |-> "die", trimNM |-> t, w |-> now] : t \in TrimModes}
+        ELSE {[bad |-> "skip", trimNM |-> t, w |-> now] : t \in TrimModes}
+             \cup {[bad |-> "redial", trimNM |-> t, w |-> x] : t \in TrimModes, x \in {now, now + 5}}
 WakesOK == \A a \in Addrs : cl'[a].st = "backoff" => WakeOK(cl'[a])
 MCNext ==
   \/ (Start /\ UNCHANGED fed)
@@ -89,15 +92,20 @@ MCSpec == MCInit /\ [][MCNext]_mcvars
 (* Liveness: a client that lost its connection (or was refused) is connected again -- provided the clock goes on, the
    environment answers the dials and eventually accepts (MaxDials bounds the refusals: the last dial allowed is answered
    with 200). *)
+\* the clock of the model stops at MaxTime: there a pending backoff timer is allowed to fire without the clock moving
+Sat(a) == /\ now = MaxTime /\ ctx = "run" /\ cl[a].st = "backoff" /\ cl[a].wake > now
+          /\ cl' = [cl EXCEPT ![a].st = "dial"] /\ UNCHANGED <<now, conf, ctx, L, fed>>
 LiveNext == \/ MCNext
             \/ \E a \in Addrs : cl[a].k >= MaxDials /\ Dial(a, "http", 200, now) /\ UNCHANGED fed
-Fair == /\ \A a \in Addrs : WF_mcvars(Wake(a) /\ UNCHANGED fed)
+            \/ \E a \in Addrs : Sat(a)
+Fair == /\ \A a \in Addrs : WF_mcvars(Wake(a) /\ UNCHANGED fed) /\ WF_mcvars(Sat(a))
         /\ \A a \in Addrs : WF_mcvars(\E d \in DialOK : Dial(a, d.how, d.code, now) /\ UNCHANGED fed)
         /\ WF_mcvars(\E to \in {now + 1, NextTimer} : to <= MaxTime /\ Tick(to) /\ UNCHANGED fed)
 FairSpec == MCInit /\ [][LiveNext]_mcvars /\ Fair
-\* the clock of the model stops at MaxTime: a backoff that would end later is not held against the client
-Reconnects == \A a \in Addrs : (ctx = "run" /\ cl[a].st \in {"dial", "backoff"} /\ (cl[a].st = "backoff" => cl[a].wake <= MaxTime))
-                                 ~> (ctx # "run" \/ cl[a].st = "open")
-\* ... and whatever happened to it before, as long as the listener runs (the contract; the tree's "dead" state is absorbing)
+\* CONTRACT: a client that is not connected gets connected again (as long as the listener runs)
+Reconnects == \A a \in Addrs : (ctx = "run" /\ cl[a].st \in {"dial", "backoff"}) ~> (ctx # "run" \/ cl[a].st = "open")
+\* ... whatever happened to it before (the tree's "dead" state is absorbing)
 AlwaysBack == \A a \in Addrs : (ctx = "run" /\ conf.akind[a] = "ok" /\ cl[a].st = "dead") ~> (ctx # "run" \/ cl[a].st = "open")
+\* AS CODED: it gets connected again -- or its goroutine has ended
+ReconnectsAsCoded == \A a \in Addrs : (ctx = "run" /\ cl[a].st \in {"dial", "backoff"}) ~> (ctx # "run" \/ cl[a].st \in {"open", "dead"})
 ====
